@@ -242,9 +242,21 @@ def r_prepare(ctx, cfg, R="C06.R3"):
            "prepare answers %s%s" % (fmt(ret)[:120], (" after calling %s" % calls[:4]) if calls else ""), fn=f, sample="self.rep_log")
 
 
-def r3(ctx, cfg):
+def overlay_premise(ctx, cfg, R):
+    """the obligations of C06 under another property's id.  Every property about state that is written and read back inside
+    a transaction (a delegation removed, a contract record rewritten, a balance debited) holds only if the transaction
+    overlay those reads and writes go through is faithful: every write recorded in view and log, point reads answered
+    from the overlay first, ranges merged over the same window with the overlay's entry winning, the log replayed whole
+    and in order on commit.  A change to `StorageTransaction` breaks those properties without touching their own code."""
+    r2(ctx, cfg, R=R)
+    r3(ctx, cfg, R=R)
+    r4(ctx, cfg, R=R)
+    r5(ctx, cfg, R=R)
+    r6(ctx, cfg, R=R)
+
+
+def r3(ctx, cfg, R="C06.R3"):
     F, P = cfg.facts, cfg.prov
-    R = "C06.R3"
     r_prepare(ctx, cfg, R)
     key = T + "RepLog::commit"
     f = ctx.need_fn(R, key)
